@@ -301,8 +301,47 @@ def job_fanout(ctx: Ctx, which):
     ctx.twins_sat += 1
 
 
+MOLECULES = {"HeH": ([2, 1], [[0, 0, 0], [0, 0, 1.5]]), "H2O": ([8, 1, 1], [[0, 0, 0.2], [0, 1.4, -0.9], [0, -1.4, -0.9]]), "NeAr": ([10, 18], [[0, 0, 0], [0, 0, 3.5]]),
+             "CH4": ([6, 1, 1, 1, 1], [[0, 0, 0], [1.2, 1.2, 1.2], [-1.2, -1.2, 1.2], [1.2, -1.2, -1.2], [-1.2, 1.2, -1.2]]), "LiF": ([3, 9], [[0, 0, -1.5], [0, 0, 1.5]])}
+ALL_PRESETS = ["coarse", "medium", "fine", "veryfine", "ultrafine", "insane", "sg_0", "sg_1", "sg_2", "sg_3", "g1", "g2", "g3", "g4", "g5", "g6", "g7"]
+
+
+def job_end_to_end(ctx: Ctx, preset, tier):
+    """end-to-end clause on the float code (numerical accuracy is not a solver question): MolGrid.from_preset with the default radial grids and Becke
+    weights integrates a sum of normalised atom-centred Gaussians (exponents 0.3, 3, 30) to the total charge within one percent.  Ground enumeration."""
+    import warnings
+    warnings.simplefilter("ignore")
+    from grid.molgrid import MolGrid
+    from grid.becke import BeckeWeights
+    ctx.encoded(MolGrid.from_preset)
+    names = ["HeH", "H2O", "NeAr"] if tier == "quick" else list(MOLECULES)
+    if preset in ("ultrafine", "insane") and tier == "quick":
+        names = ["HeH"]
+    for name in names:
+        z, x = np.array(MOLECULES[name][0]), np.array(MOLECULES[name][1], float)
+        key = f"end-to-end:{preset}:default-rgrid"
+        try:
+            mg = MolGrid.from_preset(z, x, preset=preset, aim_weights=BeckeWeights())
+        except Exception as ex:
+            msg = f"{type(ex).__name__}: {str(ex)[:120]}"
+            ctx.fail(f"MolGrid.from_preset({name}, {preset!r}) with the default radial grids builds", msg, key=key + ":raises", replay=lambda m, msg=msg: (True, dict(raised=msg)), model={})
+            continue
+        worst = {}
+        for a in (0.3, 3.0, 30.0):
+            rho = sum((a / np.pi) ** 1.5 * np.exp(-a * np.sum((mg.points - c) ** 2, axis=1)) for c in x)
+            err = float(mg.integrate(rho) / len(z) - 1)
+            if not abs(err) <= 0.01:
+                worst[a] = err
+        if worst:
+            ctx.fail(f"{name}/{preset}: total charge within 1 %", detail=str(worst), key=key, replay=lambda m, worst=worst, name=name: (True, dict(molecule=name, preset=preset, relative_errors=worst)), model={})
+        else:
+            ctx.ok(f"{name}/{preset}: Gaussians of exponent 0.3, 3, 30 integrate to the total charge within 1 %", how="ground enumeration (not a solver obligation)")
+    ctx.twins_sat += 1
+
+
 def jobs(tier):
-    js = [Job("init/2atoms/array", job_init, 2, 1, "array"), Job("init/2atoms/callable", job_init, 2, 1, "callable"), Job("init/1atom/callable", job_init, 1, 2, "callable"),
+    js = [Job(f"end-to-end/{p_}", job_end_to_end, p_, tier) for p_ in ALL_PRESETS]
+    js += [Job("init/2atoms/array", job_init, 2, 1, "array"), Job("init/2atoms/callable", job_init, 2, 1, "callable"), Job("init/1atom/callable", job_init, 1, 2, "callable"),
           Job("init/3atoms/array", job_init, 3, 1, "array"), Job("becke-indices/4", job_becke_indices, 4), Job("becke-indices/5", job_becke_indices, 5)]
     js += [Job(f"fanout/{w}", job_fanout, w) for w in ("from_size", "from_preset", "from_pruned")]
     if tier == "thorough":
@@ -318,7 +357,7 @@ def main():
         PROP, res, t0, "DESIGN.md#c07",
         bounds=dict(init="1-3 atoms, 1-2 symbolic radial shells each (Lebedev degree 3), symbolic centres; aim weights as symbolic array and as a callable returning uninterpreted values; store on and off",
                     becke="4 and 5 atoms with the real BeckeWeights (chunked) - concrete geometries", fanout="from_size / from_preset / from_pruned with OneDGrid / list / dict / default radial grids, str / list / dict presets, d_ and s_sectors"),
-        outside=["the end-to-end 1 % charge clause (numerical accuracy of preset grids)", "atomic grids with more shells / higher degrees (size-independent code path)"],
+        outside=["the end-to-end 1 % charge clause is not a solver question: it is sampled by ground jobs (17 presets x 3-5 molecules incl. noble gases x 3 exponents) on the float code", "atomic grids with more shells / higher degrees (size-independent code path)"],
         assumptions=["np.load contents lifted to exact constants", "fan-out jobs replace AtomGrid and _generate_default_rgrid by recording stubs (the atomic constructors themselves are C05)"])
 
 
